@@ -196,6 +196,12 @@ func Cleanup(pipe *pubsub.Queue[fun.Worker], timeout time.Duration) *Service {
 				defer cancel()
 			}
 
+			// pick up everything that was accepted but had not
+			// been moved to the cache when the service stopped.
+			for item, ok := pipe.Remove(); ok; item, ok = pipe.Remove() {
+				cache.PushBack(item)
+			}
+
 			ec := &erc.Collector{}
 
 			ec.Add(itertool.ParallelForEach(ctx, cache.PopIterator(),
